@@ -146,6 +146,7 @@ func runC15(ctx *h.Ctx) int {
 		k.Nontrivial(strings.Join(sig, ","))
 		k.Sample("scopes", pr.Src)
 	})
+	rejectGuard(ctx, 0.35)
 	return ctx.Finish(
 		"whole files where every top-level statement kind carries no modifier, (global) or (local), label statements likewise, with sub-labels, hoisted text/movement, inline map scripts and tables. Oracle on every label line of the output: a name the author wrote is '::' iff its modifier says global, or it has none and the kind is script/text/mapscripts; label statements '::' iff (global); every label the author did not write is ':'. distinct = sequence of (kind, modifier) of the written labels in the output",
 		ctx.N(500, 5000),
